@@ -292,3 +292,51 @@ def max_rows(spec):
         if isinstance(d, dict) and '$arr' in d:
             r = max(r, d['$arr']['shape'][0])
     return r
+
+
+def externalize(ops, kind, rng, extras=True, permute=True, h5name='data.h5'):
+    """Move inline channel data out of the add_channel ops into a write(data=...) argument of the given source kind.
+
+    Returns (new_ops, data_param). Channel ops get a dataset_name when the source needs one.
+    kind: 'dict' | 'struct' | 'h5'.  Falls back to 'dict' when 'struct' is impossible (unequal row counts).
+    """
+    ops = copy.deepcopy(ops)
+    chans = []
+    for op in ops:
+        if op.get('op') == 'add' and op.get('kind') == 'channel':
+            d = op['kwargs'].pop('data', None)
+            if d is not None:
+                chans.append((op, d['$arr']))
+    rows = {min(rc['shape'][0], rc.get('rows', 10 ** 9)) for _, rc in chans}
+    if kind == 'struct' and len(rows) > 1:
+        kind = 'dict'
+    names = []
+    seen = {}
+    for op, rc in chans:
+        base = op['name']
+        k = seen.get(base, 0)
+        seen[base] = k + 1
+        dn = base if k == 0 else '%s__%d' % (base, k)
+        if kind == 'h5':
+            dn = 'g%d/%s' % (rng.randint(0, 1), dn.replace(' ', '_').replace('.', '_')) if rng.random() < 0.6 else dn.replace(' ', '_').replace('.', '_')
+            op['kwargs']['dataset_name'] = dn if rng.random() < 0.5 else '/' + dn
+        elif rng.random() < 0.35 or k:
+            if kind != 'struct' or True:
+                dn = 'ds_%d_%s' % (len(names), base.replace(' ', '_'))
+                op['kwargs']['dataset_name'] = dn
+        names.append((dn, rc))
+    items = [[dn, rc] for dn, rc in names]
+    if extras and rng.random() < 0.5 and items and kind != 'struct':
+        r0 = items[0][1]['shape'][0]
+        items.append(['unused_extra', array_recipe(rng, r0, layout='C')])
+    if permute and rng.random() < 0.6:
+        rng.shuffle(items)
+    if kind == 'dict':
+        return ops, {'kind': 'dict', 'arrays': items}
+    if kind == 'struct':
+        if extras and rng.random() < 0.3 and items:
+            items.append(['unused_extra', array_recipe(rng, items[0][1]['shape'][0], layout='C')])
+        return ops, {'kind': 'struct', 'fields': items}
+    if kind == 'h5':
+        return ops, {'kind': 'h5', 'file': h5name, 'datasets': [['/' + dn.lstrip('/'), rc] for dn, rc in items]}
+    raise ValueError(kind)
